@@ -9,7 +9,21 @@ pub const UNIT_NAMES: [&str; 12] = [
     "century", "year", "iso_year", "quarter", "month", "week", "iso_week", "month_start_week", "sunday_start_week", "day", "hour", "minute",
 ];
 
+// Dispatch uses METHOD-CALL syntax (`v.trunc_hour()`), which is what users write: an inherent
+// method of the same name would shadow the trait method there, and must then behave the same.
+// The fully qualified trait path is exercised separately (`ufcs_*`) and compared.
 macro_rules! dispatch {
+    ($name:ident, $ty:ty, $tr:ident, [$($m:ident),*]) => {
+        pub fn $name(u: usize, v: $ty) -> Result<$ty, Error> {
+            #[allow(unused_imports)]
+            use sqldatetime::$tr;
+            let fs: [fn($ty) -> Result<$ty, Error>; 12] = [$(|x: $ty| x.$m()),*];
+            fs[u](v)
+        }
+    };
+}
+
+macro_rules! dispatch_ufcs {
     ($name:ident, $ty:ty, $tr:ident, [$($m:ident),*]) => {
         pub fn $name(u: usize, v: $ty) -> Result<$ty, Error> {
             let fs: [fn($ty) -> Result<$ty, Error>; 12] = [$(<$ty as $tr>::$m),*];
@@ -17,6 +31,13 @@ macro_rules! dispatch {
         }
     };
 }
+
+dispatch_ufcs!(ufcs_trunc_date, Date, Trunc, [trunc_century, trunc_year, trunc_iso_year, trunc_quarter, trunc_month, trunc_week, trunc_iso_week, trunc_month_start_week, trunc_sunday_start_week, trunc_day, trunc_hour, trunc_minute]);
+dispatch_ufcs!(ufcs_trunc_ts, Timestamp, Trunc, [trunc_century, trunc_year, trunc_iso_year, trunc_quarter, trunc_month, trunc_week, trunc_iso_week, trunc_month_start_week, trunc_sunday_start_week, trunc_day, trunc_hour, trunc_minute]);
+dispatch_ufcs!(ufcs_trunc_od, OracleDate, Trunc, [trunc_century, trunc_year, trunc_iso_year, trunc_quarter, trunc_month, trunc_week, trunc_iso_week, trunc_month_start_week, trunc_sunday_start_week, trunc_day, trunc_hour, trunc_minute]);
+dispatch_ufcs!(ufcs_round_date, Date, Round, [round_century, round_year, round_iso_year, round_quarter, round_month, round_week, round_iso_week, round_month_start_week, round_sunday_start_week, round_day, round_hour, round_minute]);
+dispatch_ufcs!(ufcs_round_ts, Timestamp, Round, [round_century, round_year, round_iso_year, round_quarter, round_month, round_week, round_iso_week, round_month_start_week, round_sunday_start_week, round_day, round_hour, round_minute]);
+dispatch_ufcs!(ufcs_round_od, OracleDate, Round, [round_century, round_year, round_iso_year, round_quarter, round_month, round_week, round_iso_week, round_month_start_week, round_sunday_start_week, round_day, round_hour, round_minute]);
 
 dispatch!(trunc_date, Date, Trunc, [trunc_century, trunc_year, trunc_iso_year, trunc_quarter, trunc_month, trunc_week, trunc_iso_week, trunc_month_start_week, trunc_sunday_start_week, trunc_day, trunc_hour, trunc_minute]);
 dispatch!(trunc_ts, Timestamp, Trunc, [trunc_century, trunc_year, trunc_iso_year, trunc_quarter, trunc_month, trunc_week, trunc_iso_week, trunc_month_start_week, trunc_sunday_start_week, trunc_day, trunc_hour, trunc_minute]);
